@@ -1,8 +1,6 @@
 /* Contracts for Lib/core/evts.c (C16 stash, C17 become/unbecome, C13 batch setters; guards serve C01/C07/C14/C18). */
 
 /* the guard every state-dependent, rate-limited module call starts with */
-#define V_G_MOD(mod)        ((mod) != NULL && !((mod)->state & M_MOD_ZOMBIE) && (mod)->ctx == g_mctx)
-#define V_G_RUNNING(mod)    (V_G_MOD(mod) && ((mod)->state & M_MOD_RUNNING) != 0)
 #define V_MODREQ(mod)       (v_base_ok() && ((mod) == NULL || ((mod) == g_mod && V_RW_OK(g_mod, sizeof(m_mod_t)) && v_state_valid(g_mod->state) \
                              && g_mod->recvs == g_recvs && V_S_OK(g_recvs) && g_mod->stashed == g_stashq && V_Q_OK(g_stashq))))
 
